@@ -51,6 +51,9 @@ func (v c16Val) MarshalJSON() ([]byte, error) {
 type c16Input struct {
 	Fn   string   `json:"fn"`
 	Args []c16Val `json:"args"`
+	// readFile histories: the contents the file has, one after the other (hex; "-" = the file is removed,
+	// "d" = a directory sits at the path); readFile is called after every step and returns what is there *now*
+	History []string `json:"history,omitempty"`
 }
 
 type c16 struct{}
@@ -105,6 +108,21 @@ func hx(s string) *string { h := hex.EncodeToString([]byte(s)); return &h }
 
 func (c16) Generate(c *Ctx) []any {
 	n := c.Budget(6000, 120000)
+	var hist []any
+	for i := 0; i < c.Budget(30, 300); i++ {
+		var h []string
+		for k := 0; k < 2+c.Rng.Intn(5); k++ {
+			switch c.Rng.Intn(6) {
+			case 0:
+				h = append(h, "-")
+			case 1:
+				h = append(h, "d")
+			default:
+				h = append(h, *hx(c16Str(c.Rng)))
+			}
+		}
+		hist = append(hist, c16Input{Fn: "readFile", Args: []c16Val{}, History: h})
+	}
 	names := []string{}
 	for k := range c16Sig {
 		names = append(names, k)
@@ -194,7 +212,7 @@ func (c16) Generate(c *Ctx) []any {
 			}
 		}
 	}
-	return out
+	return append(out, hist...)
 }
 
 var c16Golint = []string{"ACL", "API", "ASCII", "CPU", "CSS", "DNS", "EOF", "GUID", "HTML", "HTTP", "HTTPS", "ID", "IP", "JSON", "LHS", "QPS", "RAM", "RHS", "RPC", "SLA", "SMTP", "SQL", "SSH", "TCP", "TLS", "TTL", "UDP", "UI", "UID", "UUID", "URI", "URL", "UTF8", "VM", "XML", "XMPP", "XSRF", "XSS"}
@@ -395,6 +413,9 @@ func (c16) Run(c *Ctx, raw json.RawMessage) (cs Case) {
 	if err := json.Unmarshal(raw, &in); err != nil {
 		return Case{Oracle: fail("bad-input", "%v", err)}
 	}
+	if in.Fn == "readFile" && in.History != nil {
+		return c16ReadFileHistory(c, &in)
+	}
 	args := make([]any, len(in.Args))
 	data := map[string]any{}
 	call := in.Fn
@@ -482,4 +503,67 @@ func (c16) Run(c *Ctx, raw json.RawMessage) (cs Case) {
 		}
 	}
 	return Case{Impl: impl, Oracle: or, Nontrivial: nontrivial, Tags: tags}
+}
+
+// c16ReadFileHistory: readFile through the template engine after every change of the file
+func c16ReadFileHistory(c *Ctx, in *c16Input) Case {
+	dir, err := os.MkdirTemp(c.Work, "c16rf-")
+	if err != nil {
+		return Case{Oracle: fail("harness", "%v", err)}
+	}
+	defer os.RemoveAll(dir)
+	path := filepath.Join(dir, "boilerplate.txt")
+	tags := []string{"fn:readFile", "readFile-history"}
+	or := Oracle{OK: true}
+	var obs []string
+	for step, h := range in.History {
+		os.RemoveAll(path)
+		var want string
+		wantErr := false
+		switch h {
+		case "-":
+			wantErr = true
+		case "d":
+			os.MkdirAll(path, 0o755)
+			wantErr = true
+		default:
+			b, _ := hex.DecodeString(h)
+			if err := os.WriteFile(path, b, 0o644); err != nil {
+				return Case{Oracle: fail("harness", "%v", err)}
+			}
+			want = string(b)
+		}
+		var got string
+		gotErr, panicked := false, ""
+		func() {
+			defer func() {
+				if r := recover(); r != nil {
+					panicked = fmt.Sprint(r)
+				}
+			}()
+			t, err := template.New("t").Funcs(template_funcs.FuncMap).Parse("{{ readFile .P }}")
+			if err != nil {
+				gotErr = true
+				return
+			}
+			var sb strings.Builder
+			if err := t.Execute(&sb, map[string]any{"P": path}); err != nil {
+				gotErr = true
+				return
+			}
+			got = sb.String()
+		}()
+		if panicked != "" {
+			return Case{Impl: map[string]any{"panic": panicked}, Oracle: fail("run-level-panic", "readFile escaped the template engine: %s", panicked), Tags: tags, NoModel: true}
+		}
+		if gotErr {
+			obs = append(obs, "err")
+		} else {
+			obs = append(obs, hex.EncodeToString([]byte(got)))
+		}
+		if or.OK && (gotErr != wantErr || (!wantErr && got != want)) {
+			or = fail("differs-from-documented", "readFile, step %d of the history %v: the file now holds %q (error expected: %v), readFile gave %q (error: %v)", step, in.History, want, wantErr, got, gotErr)
+		}
+	}
+	return Case{Impl: map[string]any{"steps": obs}, Oracle: or, Nontrivial: len(in.History) >= 2, Tags: tags, NoModel: true}
 }
